@@ -1003,6 +1003,11 @@ def rpdac_phase2(case, impl_lines):
             ops.append(["hdchk", strs, src[1] if len(src) > 1 else "-", str(case[3].get("hs", 0)), d.get("ts", "0"), d.get("occ", "-"), d.get("t", "0"),
                         d.get("rules", "-"), d.get("seqs", "-"), d.get("loc", "-"), d.get("abs", "-")])
             k += 1
+        elif len(t) >= 11 and t[1] == "HF":
+            d = dict(x.split("=", 1) for x in t[2:])
+            ops.append(["hfchk", strs, src[1] if len(src) > 1 else "-", str(case[3].get("hs", 0)), d.get("ts", "0"), d.get("occ", "-"), d.get("t", "0"),
+                        d.get("mc", "0"), d.get("rules", "-"), d.get("cls", "-"), d.get("offs", "-"), d.get("loc", "-"), d.get("abs", "-")])
+            k += 1
         elif len(t) >= 2 and t[1] == "RQ":
             ops.append(["rdskip"])
             k += 1
@@ -1028,6 +1033,7 @@ def rpdac_cases(tier, rng, k):
         for ov in (0, 25):
             hs = int(len(S) * (1 + (ov * 1.0 / 100.0)))
             cases.append(("hq_%s_%d" % (name, ov), "rpdac", "HASHRPDAC", {"ov": ov, "hs": hs}, S, [["hd", qh], ["reload"], ["hd", qh]]))
+            cases.append(("hf_%s_%d" % (name, ov), "rpdac", "HASHRPF", {"ov": ov, "hs": hs}, S, [["hf", qh], ["reload"], ["hf", qh]]))
     return cases
 
 
